@@ -56,7 +56,7 @@ int main (int argc, char **argv) {
 	prefix = argv[3]; pagesz = sysconf (_SC_PAGESIZE);
 	in = fopen (argv[1], "r"); if (!in) { perror (argv[1]); return 2; }
 	vt_open (argv[2]);
-	p_libsys_init ();
+	p_libsys_init (); p_libsys_shutdown (); p_libsys_init ();      /* the library is used after a shutdown / re-initialisation cycle */
 	while (fgets (line, sizeof line, in)) {
 		char *p = line; int n = 0;
 		if (sscanf (p, "%31s%n", op, &n) < 1) continue;
@@ -93,6 +93,13 @@ int main (int argc, char **argv) {
 			}
 			emit_view (); VT ("}"); VT_END ();
 			free (buf);
+		}
+		else if (!strcmp (op, "bwhuge")) {       /* a length close to the top of psize (as a negative length converted to unsigned gives): can never fit */
+			long k; pssize r; unsigned char small[16] = { 1, 2, 3 };
+			sscanf (p, "%d %ld", &h, &k);
+			r = p_shm_buffer_write (hb[h], small, (psize) 0 - (psize) k, NULL);
+			VT ("{\"e\":\"bwhuge\",\"h\":%d,\"k\":%ld,\"res\":%ld,", h, k, (long) r);
+			emit_view (); VT ("}"); VT_END ();
 		}
 		else if (!strcmp (op, "br")) {
 			int len, i; pint r; unsigned char *ex;
